@@ -28,7 +28,7 @@
    the question whether every place of a document is reached by a validator are exercised by the
    sweep of tools/props/c18.py, not proved. *)
 From Coq Require Import List ZArith Bool Strings.Byte.
-From Verif Require Import Base.Wire Defs.DefTypes Defs.DefEq Defs.RefCheck Defs.RefCheckProofs Defs.RefCheckShipped.
+From Verif Require Import Base.Wire Defs.DefTypes Defs.DefEq Defs.RefCheck Defs.RefTables Defs.RefCheckProofs Defs.RefCheckShipped.
 Import ListNotations.
 Open Scope bs_scope.
 
